@@ -39,6 +39,8 @@ GFA1 = {
     "h3": ("H\txx:i:2", []),
     "h4": ("H\tyy:Z:hello world\tzz:f:1.5", []),
     "h5": ("H\tTS:i:100", []),
+    "h6": ("H\tjs:J:[1]", []),
+    "h7": ("H\tjs:J:{\"a\": [2]}", []),                          # with h6: a JSON tag given twice (kept in one array)
     "k1": ("# a comment", []),
     "k2": ("# padded with blanks  ", []),
     "t3": ("S\tY\t*\tnt:Z:ends with a blank ", []),            # the last field of a line may end with white space
@@ -84,6 +86,8 @@ GFA2 = {
     "h2": ("H\txx:i:1", []),
     "h3": ("H\txx:i:2", []),
     "h5": ("H\tTS:i:100", []),
+    "h6": ("H\tjs:J:[1]", []),
+    "h7": ("H\tjs:J:{\"a\": [2]}", []),                          # with h6: a JSON tag given twice (kept in one array)
     "k1": ("# a comment", []),
     "k2": ("# padded with blanks  ", []),
     "t3": ("S\tY\t8\t*\tnt:Z:ends with a blank ", []),
